@@ -14,6 +14,7 @@ type Term struct {
 	Sort string   // "Int", "Bool", "Real", "(Array Int Int)", ...
 	Lo   *big.Int // optional inclusive bounds for Int terms
 	Hi   *big.Int
+	Pow2 uint // known number of trailing zero bits (value is a multiple of 2^Pow2)
 }
 
 const (
@@ -92,6 +93,10 @@ func tAdd(a, b Term) Term {
 		return a
 	}
 	r := app("+", SInt, a, b)
+	r.Pow2 = termPow2(a)
+	if p := termPow2(b); p < r.Pow2 {
+		r.Pow2 = p
+	}
 	if a.Lo != nil && b.Lo != nil {
 		r.Lo = new(big.Int).Add(a.Lo, b.Lo)
 	}
@@ -143,6 +148,13 @@ func tMul(a, b Term) Term {
 		}
 	}
 	r := app("*", SInt, a, b)
+	r.Pow2 = a.Pow2 + b.Pow2
+	if ca, ok := a.isConst(); ok && ca.Sign() > 0 {
+		r.Pow2 = b.Pow2 + ca.TrailingZeroBits()
+	}
+	if cb, ok := b.isConst(); ok && cb.Sign() > 0 {
+		r.Pow2 = a.Pow2 + cb.TrailingZeroBits()
+	}
 	if a.Lo != nil && a.Hi != nil && b.Lo != nil && b.Hi != nil {
 		c := []*big.Int{
 			new(big.Int).Mul(a.Lo, b.Lo), new(big.Int).Mul(a.Lo, b.Hi),
@@ -191,6 +203,11 @@ func tModE(a, b Term) Term {
 	}
 	r := app("mod", SInt, a, b)
 	if cb, ok := b.isConst(); ok && cb.Sign() > 0 {
+		if tz := cb.TrailingZeroBits(); a.Pow2 <= tz {
+			r.Pow2 = a.Pow2
+		} else {
+			r.Pow2 = tz
+		}
 		r.Lo = big.NewInt(0)
 		r.Hi = new(big.Int).Sub(cb, bigOne)
 		if a.Lo != nil && a.Hi != nil && a.Lo.Sign() >= 0 && a.Hi.Cmp(r.Hi) < 0 {
@@ -215,6 +232,10 @@ func tIte(c, a, b Term) Term {
 	}
 	r := app("ite", a.Sort, c, a, b)
 	if a.Sort == SInt {
+		r.Pow2 = termPow2(a)
+		if p := termPow2(b); p < r.Pow2 {
+			r.Pow2 = p
+		}
 		if a.Lo != nil && b.Lo != nil {
 			if a.Lo.Cmp(b.Lo) < 0 {
 				r.Lo = a.Lo
@@ -403,4 +424,15 @@ func sanitize(s string) string {
 		}
 	}
 	return b.String()
+}
+
+// termPow2: known trailing zero bits of a term (constants: exact; zero: unbounded, capped).
+func termPow2(t Term) uint {
+	if c, ok := t.isConst(); ok {
+		if c.Sign() == 0 {
+			return 64
+		}
+		return c.TrailingZeroBits()
+	}
+	return t.Pow2
 }
